@@ -4,7 +4,7 @@ Every abstract workflow of a finite, collision-forcing space is turned into a Fl
 WorkflowGraph.graphFromFlowIR(doc, manifest, primitive=False) and the replicated graph (nodes, edges, parsed
 references, parsed arguments, replica variable) is compared with an abstract-DAG expander written from the statement.
 """
-import itertools
+import copy
 import re
 
 from verif.core.runner import HarnessError
@@ -28,7 +28,7 @@ def parse_args(text, stage, directs):
 def observe_graph(case, doc, manifest):
     """L1: the replicated WorkflowGraph. Returns the observation dict (see oracle.compare)."""
     import experiment.model.graph
-    wg = experiment.model.graph.WorkflowGraph.graphFromFlowIR(doc, manifest, primitive=False)
+    wg = experiment.model.graph.WorkflowGraph.graphFromFlowIR(copy.deepcopy(doc), dict(manifest), primitive=False)
     g = wg.graph
     directs = model.direct_names(case)
     nodes = {}
@@ -67,25 +67,10 @@ def _node_key(g, nid):
     return (int(m.group(1)), m.group(2))
 
 
-def observe_flowir(doc, manifest):
-    """L2 (diagnosis only, used when the replicated load is rejected): raw output of FlowIRConcrete.replicate()."""
-    import experiment.model.frontends.flowir as F
-    top = sorted(set(k.split('/')[0] for k in (manifest or {})))
-    try:
-        rep = F.FlowIRConcrete(F.deep_copy(doc), 'default', {}).replicate(top_level_folders=top)
-    except Exception as e:
-        return {'error': '%s: %s' % (type(e).__name__, str(e)[:300])}
-    out = {}
-    for c in rep.get('components', []):
-        out['stage%d.%s' % (c.get('stage', 0), c['name'])] = {
-            'references': list(c.get('references', [])), 'arguments': c.get('command', {}).get('arguments', '')}
-    return out
-
-
 def primitive_loads(doc, manifest):
     import experiment.model.graph
     try:
-        experiment.model.graph.WorkflowGraph.graphFromFlowIR(doc, manifest, primitive=True).graph
+        experiment.model.graph.WorkflowGraph.graphFromFlowIR(copy.deepcopy(doc), dict(manifest), primitive=True).graph
         return True, None
     except Exception as e:
         return False, '%s: %s' % (type(e).__name__, str(e)[:500])
@@ -378,7 +363,7 @@ def canon_short(x):
 
 
 # ------------------------------------------------------------------------------------------------ enumeration
-RULE = ('Abstract workflows (components, stages, typed consumer->producer edges) are enumerated completely in three '
+RULE = ('Abstract workflows (components, stages, typed consumer->producer edges) are enumerated completely in four '
         'families and each is turned into a FlowIR document: '
         'S = every DAG shape with 2..3 components (2..4 thorough) over <=2 stages x every assignment of a replica '
         'request (one component with N in {1,2,3}, or two components with (2,2),(2,3),(3,2)) and of the aggregate flag '
@@ -386,17 +371,21 @@ RULE = ('Abstract workflows (components, stages, typed consumer->producer edges)
         '(4 uniform vectors for 4 components), N given literally / through a global / through a stage variable; '
         'N = two producers X,Y feeding one consumer (optionally X->Y), stages 000/001/011, every ordered pair of names '
         'from the collision alphabet {A,AA,BA,AB,A-B,A.B,x}(+{B7,A_B} thorough) incl. the same name in two stages, '
-        'replica request on X, on Y, on both, consumer aggregating or not, every spelling pair, file/method pairs '
-        '(same and different), the reference repeated in the arguments in the same spelling / other spelling / '
-        '`ref/path` form / not at all, both orders of the reference list; '
+        'replica request on X, on Y, on both, consumer aggregating or not, every spelling pair, file/method kinds '
+        '(quick: both edges (none,ref) or (out.txt,ref); thorough: 6 equal kinds and 4 different pairs over files '
+        'none/out.txt/d/f and methods ref copy link output), the reference repeated in the arguments in the same '
+        'spelling or in `ref/path` form (thorough also: other spelling, not at all), reversed reference list for equal '
+        'names (thorough: also for equal kinds); '
         'D = replicated producer -> consumer with each of 9 non-component references (special folders, manifest folder, '
-        'application dependency, absolute path, and paths that end with the producer name) one at a time and together. '
+        'application dependency, absolute path, and two paths that end with the producer name) one at a time and all '
+        'together, on the consumer / the producer / both; '
+        'P = replicated producer (N in {1,2,3}) -> consumer whose command line names two files under one reference. '
         'A case is non-trivial when at least one component consumes from the replicated region (so a reference must '
         'be rewritten); distinct = distinct abstract case. Cases the statement does not decide are not judged: '
         'regions with different replica counts that meet, an aggregating component that also requests replicas, a '
         'literal component name equal to <replicated name><digits>. Failing cases that have exactly the shape of '
-        'one of this module\'s known-defect selectors are recorded individually once per (selector, work chunk) and '
-        'counted in failing_cases_* counters otherwise.')
+        'one of this module\'s known-defect selectors are recorded individually once per (selector kind, outcome level, '
+        'work chunk; 8 chunks hold all cases that can trigger them) and are all counted in the failing_cases_* counters.')
 ASSUMPTIONS = [
     'observation = WorkflowGraph.graphFromFlowIR(doc, manifest, primitive=False): node ids, edges, per node the raw '
     'references and the resolved command line, variables.replica; strings are parsed with an independent parser of the '
